@@ -47,6 +47,7 @@ import (
 	"path/filepath"
 	"strconv"
 	"strings"
+	"sync"
 	"syscall"
 	"time"
 
@@ -100,11 +101,11 @@ var attribution = []string{"store."}
 var exclude = []string{"fs/layer.(*layer).Verify", "fs/layer.(*layer).Info"}
 
 func top(r *vf.Run) {
-	nSeq := r.N(260, 5200)
-	nConc := r.N(70, 1400)
+	nSeq := r.N(200, 4000)
+	nConc := r.N(60, 1200)
 	nFuse := r.N(16, 260)
-	runBatches(r, "seq", nSeq, r.N(260, 650), false)
-	runBatches(r, "conc", nConc, r.N(70, 350), true)
+	runBatches(r, "seq", nSeq, r.N(200, 500), false)
+	runBatches(r, "conc", nConc, r.N(60, 300), true)
 	if fuseProbe(r) {
 		runBatches(r, "fuse", nFuse, r.N(16, 130), false)
 	} else {
@@ -146,7 +147,9 @@ func runBatches(r *vf.Run, stage string, n, batch int, race bool) {
 			}
 			return
 		}
-		if ex.ExitCode == 0 && ex.Signal == "" && ex.Partial && open < 0 {
+		// exit status 66 = the race runtime's exit code when it reported races (they are parsed
+		// from its log); the stage itself ran to its end if the partial result and the journal say so
+		if (ex.ExitCode == 0 || (race && ex.ExitCode == 66)) && ex.Signal == "" && ex.Partial && open < 0 {
 			lo = hi
 			continue
 		}
@@ -169,6 +172,9 @@ func runBatches(r *vf.Run, stage string, n, batch int, race bool) {
 				map[string]any{"stage": stage, "case": open, "crash": head, "output_tail": tailStr(ex.Tail, 2500)})
 		}
 		lo = open + 1
+		if stage == "fuse" {
+			lo = hi // cases run in parallel there: the rest of the batch is not resumed
+		}
 		if crashes > 60 {
 			r.Inconclusive("too many child crashes; stage " + stage + " abandoned")
 			return
@@ -198,16 +204,22 @@ func readJournal(path string) (open, lastEnd int) {
 		return
 	}
 	defer f.Close()
+	begun := map[int]bool{}
 	sc := bufio.NewScanner(f)
 	for sc.Scan() {
 		var i int
 		if _, e := fmt.Sscanf(sc.Text(), "BEGIN %d", &i); e == nil {
-			open = i
+			begun[i] = true
 		} else if _, e := fmt.Sscanf(sc.Text(), "END %d", &i); e == nil {
-			lastEnd = i
-			if open == i {
-				open = -1
+			delete(begun, i)
+			if i > lastEnd {
+				lastEnd = i
 			}
+		}
+	}
+	for i := range begun { // the fuse stage runs several cases at once: report the highest open one
+		if i > open {
+			open = i
 		}
 	}
 	return
@@ -259,18 +271,17 @@ func child(r *vf.Run) {
 		return
 	}
 	defer jf.Close()
-	tp := time.Now()
 	p, err := buildPool(r, r.N(12, 24), 2)
-	r.Count("us_pool", int(time.Since(tp).Microseconds()))
 	if err != nil {
 		r.Inconclusive("layer pool could not be built: " + err.Error())
 		return
 	}
-	for i := lo; i < hi; i++ {
-		tc := time.Now()
+	var jmu sync.Mutex
+	one := func(i int) {
+		jmu.Lock()
 		fmt.Fprintf(jf, "BEGIN %d\n", i)
 		jf.Sync()
-		r.Count("us_sync", int(time.Since(tc).Microseconds()))
+		jmu.Unlock()
 		switch r.Child {
 		case "seq":
 			runSeqCase(r, p, i)
@@ -279,13 +290,33 @@ func child(r *vf.Run) {
 		case "fuse":
 			runFuseCase(r, p, i)
 		}
+		jmu.Lock()
 		fmt.Fprintf(jf, "END %d\n", i)
-		tf := time.Now()
+		jmu.Unlock()
 		r.FlushPartial()
-		r.Count("us_flush", int(time.Since(tf).Microseconds()))
-		r.Count("us_case_total", int(time.Since(tc).Microseconds()))
-		if r.Violations() > 40 {
-			break
+	}
+	if r.Child == "fuse" {
+		// Several mounts at once: a case spends most of its time waiting for the kernel's 1 s
+		// entry cache to lapse.
+		next := make(chan int)
+		var wg sync.WaitGroup
+		for wk := 0; wk < 6; wk++ {
+			wg.Add(1)
+			go func() {
+				defer wg.Done()
+				for i := range next {
+					one(i)
+				}
+			}()
 		}
+		for i := lo; i < hi && r.Violations() <= 40; i++ {
+			next <- i
+		}
+		close(next)
+		wg.Wait()
+		return
+	}
+	for i := lo; i < hi && r.Violations() <= 40; i++ {
+		one(i)
 	}
 }
